@@ -603,6 +603,10 @@ fn game_format(game: Game, language: LanguageKey, emitter: &RootEmitter) -> Resu
         | (Game::Th125, LanguageKey::Msg)
         => Err(emitter.emit(error!("{} does not have stage MSG files; maybe try 'trumsg --mission'?", game))),
 
+        | (Game::Th095, _)
+        | (Game::Th125, _)
+        => Err(emitter.emit(error!("{} does not have ending MSG files; maybe try 'trumsg --mission'?", game))),
+
         _ => Ok(FileFormat { game, language })
     }
 }
